@@ -265,6 +265,15 @@ func Run(t *simkit.Tape, o *simkit.Outcome, full bool) {
 			tasks[ti] = append(tasks[ti], o1)
 		}
 	}
+	if t.Bool(1, 6) {
+		// like the workers of the CLI: every task begins by reading a document
+		o.Probe("every-task-parses-first")
+		for ti := range tasks {
+			x := &op{kind: "parse", parse: world.GenParseSpec(t)}
+			x.desc = fmt.Sprintf("Read%s(%d bytes)", x.parse.Kind, len(x.parse.Bytes))
+			tasks[ti] = append([]*op{x}, tasks[ti]...)
+		}
+	}
 	if specs[0].Family == "capacity" {
 		o.Probe("capacity-family-run")
 		for ti := 0; ti < 2 && ti < len(tasks); ti++ {
